@@ -564,7 +564,7 @@ func runRoundTrip(cfg *config, res *monitor.Result) {
 	}
 	w.flush()
 	// 2. seeded random values
-	nrand := 20000
+	nrand := 100000
 	if cfg.thorough() {
 		nrand = 400000
 	}
